@@ -404,6 +404,29 @@ impl Check for C12 {
                 }
             }
         }
+        // wide containers: 250..700 tiny members (empty containers among them), whatever a parser
+        // kept across `next()` calls would accumulate
+        for k in 0..(if g.tier == Tier::Quick { 6 } else { 60 }) {
+            let n = *r.pick(&[254usize, 255, 256, 257, 300, 520, 700]);
+            let tiny = |r: &mut crate::rng::Rng| -> &'static str { *r.pick(&["{}", "[]", "{}", "[[]]", "{\"a\":{}}", "0", "\"\"", "null"]) };
+            let flavour = k % 3;
+            let items: Vec<String> = (0..n)
+                .map(|i| {
+                    let v = match flavour {
+                        0 => "{}",
+                        1 => "[]",
+                        _ => tiny(&mut r),
+                    };
+                    if k % 2 == 0 {
+                        v.to_string()
+                    } else {
+                        format!("\"k{}\":{}", i, v)
+                    }
+                })
+                .collect();
+            let d = if k % 2 == 0 { format!("[{},{{\"in\":[1]}}]", items.join(",")) } else { format!("{{{},\"last\":{{\"in\":[1]}}}}", items.join(",")) };
+            emit(Case::new("wide", d.into_bytes()));
+        }
         // sizes 0..N, handwritten separators
         if g.shard == 0 {
             for n in 0..70usize {
